@@ -47,7 +47,7 @@ Quoted(c) == "\"" \o c \o "\""
 ReplyCode(rec) == IF "code" \in DOMAIN rec.reply THEN rec.reply.code ELSE 200
 Frames(rec, s) == rec.frames[s]
 DataFrames(rec, s) == SelectSeq(Frames(rec, s), LAMBDA f : f.k = "data")
-ObsReal(rec) ==
+ObsReal(rec, k) ==
   LET a == rec.act
       rep == rec.reply
       mine == IF "s" \in DOMAIN a /\ a.s \in Sessions /\ rec.rid # ""
@@ -62,6 +62,8 @@ ObsReal(rec) ==
       push |-> {ToSet(rec.push[i].to) : i \in {j \in DOMAIN rec.push : rec.push[j].what = "msg"}},
       ackSeq |-> IF rep.k = "ctrl" /\ "seq" \in DOMAIN rep.params THEN rep.params.seq ELSE 0,
       afterCrash |-> rec.afterCrash,
+      sysPre |-> IF rec.i > 0 /\ "sys" \in DOMAIN rec.st.topics THEN Trace[k - 1].st.topics["sys"].seq ELSE 0,
+      sysPost |-> IF "sys" \in DOMAIN rec.st.topics THEN rec.st.topics["sys"].seq ELSE 0,
       \* permission-change notices received inside a group topic: [s, t, src (user named, "" = the recipient), want, given (texts)]
       acs |-> UNION {{[s |-> s, t |-> Frames(rec, s)[i].topic, src |-> Frames(rec, s)[i].src,
                        want |-> Frames(rec, s)[i].dacs_want, given |-> Frames(rec, s)[i].dacs_given]
@@ -79,7 +81,7 @@ ModelAct(a) == a
 Check(k) ==
   LET rec == Trace[k] IN
   IF rec.i = 0 THEN {} ELSE
-  Tagged(Proj(Trace[k - 1].st), ModelAct(rec.act), ObsReal(rec), Proj(rec.st), Props)
+  Tagged(Proj(Trace[k - 1].st), ModelAct(rec.act), ObsReal(rec, k), Proj(rec.st), Props)
 
 Diverge(k) ==
   LET rec == Trace[k] IN
